@@ -41,8 +41,10 @@ def vec_queries(Query, ops, cfgs, timeout=300, unwind=None):
     qs = []
     for d in cfgs:
         for op in ops:
+            if 'input' in op: timeout = max(timeout, 600)
             qs.append(Query('%s.%s' % (op, cfg_name(d)), 'vec_ops.cpp', 'h_' + op, defs=d, arena=arena_for(d), unwind=unwind or d['VF_MAXM'] + 2, timeout=timeout,
-                            mem_gb=(5 if d['VF_E'] in ('R', 'X') else 3) * (2 if 'input' in op else 1),
+                            mem_gb=(5 if d['VF_E'] in ('R', 'X') else 3) * (4 if op == 'insert_range_input' else 2 if 'input' in op else 1),
+                            optional_reach=(2,) if op in ('shrink_to_fit', 'reserve') else (),
                             symbolic='state class (inline/heap), size, capacity, element values, position, count, value',
                             bounds=dict(N=d['VF_N'], size_max=d.get('VF_CMAX', d['VF_N'] + 3), capacity_max=d.get('VF_CMAX', d['VF_N'] + 3), count_max=d.get('VF_COUNT_MAX', 3), values='8-bit')))
     return qs
@@ -166,6 +168,15 @@ def plan(pid, tier, Query):
         grow_ops = ['push_back_copy', 'push_back_move', 'emplace_back', 'insert_one_copy', 'insert_one_move', 'emplace', 'insert_n', 'insert_range_ptr', 'insert_range_fwd',
                     'append_range_ptr', 'assign_range_fwd', 'insert_il', 'resize', 'resize_val', 'assign_n', 'reserve', 'append_n', 'append_n_val', 'access']
         return limit_queries(Query, tier) + vec_queries(Query, grow_ops, fcv) + vec_queries(Query, ['access'], [vec_cfg(1, 2, 'B'), vec_cfg(0, 0, 'B', s='uint32_t')])
+    if pid == 'C09':
+        F = 5
+        fault_ops = ['push_back_copy', 'emplace_back', 'insert_one_copy', 'emplace', 'insert_n', 'insert_range_fwd', 'append_range_ptr', 'assign_range_fwd',
+                     'resize', 'resize_val', 'assign_n', 'reserve', 'shrink_to_fit', 'append_n', 'append_n_val', 'copy_ctor', 'copy_assign']
+        cfgs = [vec_cfg(1, 2, 'X', ak=2, cls=0, faults=F), vec_cfg(1, 2, 'X', ak=2, cls=1, faults=F)]
+        if not quick:
+            cfgs += [vec_cfg(1, 3, 'R', ak=0, faults=F), vec_cfg(0, 0, 'X', ak=1, s='uint32_t', cls=1, faults=F), vec_cfg(2, 3, 'X', faults=F), vec_cfg(0, 0, 'R', ak=2, s='uint32_t', faults=F)]
+            fault_ops += ['push_back_move', 'insert_one_move', 'insert_range_ptr', 'append_range_fwd', 'assign_range_ptr', 'insert_il', 'assign_il']
+        return vec_queries(Query, fault_ops, cfgs, timeout=900)
     if pid == 'C10':
         cfgs = [vec_cfg(1, 2, 'B'), vec_cfg(1, 2, 'X', ak=2, cls=0), vec_cfg(1, 2, 'X', ak=2, cls=1), vec_cfg(0, 0, 'R', s='uint32_t')]
         if not quick: cfgs += [vec_cfg(0, 0, 'B', s='uint32_t'), vec_cfg(2, 3, 'X'), vec_cfg(2, 3, 'B'), vec_cfg(1, 3, 'R', ak=0), vec_cfg(1, 3, 'T3', ak=1, s='uint16_t'), vec_cfg(0, 0, 'X', ak=1, s='uint32_t')]
